@@ -52,6 +52,7 @@ func init() {
 	rt.Register("H_C17_float", H_C17_float)
 	rt.Register("H_C16_scan", H_C16_scan)
 	rt.Register("H_C16_chunks", H_C16_chunks)
+	rt.Register("H_C16_layout", H_C16_layout)
 	rt.Register("H_C02_infix", H_C02_infix)
 	rt.Register("H_C02_mixed", H_C02_mixed)
 	rt.Register("H_C10_bin", H_C10_bin)
@@ -66,6 +67,7 @@ func H_C17_expint() { parser.VH_C17_expint() }
 func H_C17_str()    { parser.VH_C17_str() }
 func H_C17_float()  { parser.VH_C17_float() }
 func H_C16_chunks() { parser.VH_C16_chunks(rt.Param(0)) }
+func H_C16_layout() { parser.VH_C16_layout(rt.Param(0)) }
 func H_C16_scan() { simplexer.VH_C16_scan(rt.Param(0) == 1, int64(rt.Param(1)), rt.Param(2) == 1, rt.Param(3)) }
 func H_C02_infix() { parser.VH_C02_infix(rt.Param(0), rt.Param(1), rt.Param(2)) }
 func H_C02_mixed() { parser.VH_C02_mixed(rt.Param(0)) }
